@@ -66,35 +66,36 @@ Theorem C05_resolve_eq_fresh : forall M s l r_warm r_fresh,
 Proof. exact resolve_eq_fresh_history. Qed.
 Print Assumptions C05_resolve_eq_fresh.
 
-(* DESIGN 10 #18: ILLlib_delrows keeps the cache when the deleted rows are marked basic in the stored basis and have
-   pi <= 0 (it would have to be pi = 0, and the stored basis would have to be the basis of the cache).  On the
-   faithful model a state with a certified cache whose row is marked basic with pi = -1 loses the certificate:
-   max -x, x >= 1 (x = 1, value -1); deleting the row leaves "x = 1, value -1" cached for  max -x, x >= 0  whose
-   optimum is 0.  The witness replays on the real library through QSload_basis_array (which makes the stored basis
-   differ from the basis of the cache): notes/repo_patches/demo/delrows_cache_guard.txt, known finding
-   F-C05-delrows-kept-cache. *)
+(* DESIGN 10 #18 (repaired in /repo by "fix: ILLlib_delrows keeps the cached solution only when the deleted rows
+   have pi = 0"): ILLlib_delrows used to keep the cache when the deleted rows were marked basic in the stored basis
+   and had pi <= 0.  On the model of that code the state below (max -x, x >= 1; x = 1, value -1, pi = -1, stored
+   basis marking the row basic) kept "x = 1, value -1" cached for  max -x, x >= 0  whose optimum is 0 - a
+   refutation of cache soundness that replayed on the library (notes/repo_patches/demo/delrows_cache_guard.txt).
+   With the guard pi = 0 the same state drops the cache; the theorem below pins that behaviour (a return of the
+   old guard breaks it and the Api correspondence).  The general statement - a delete-rows call that keeps the
+   cache keeps a certificate - is still carried as the hypothesis step_ok of C05_Inv_cache_partial. *)
 Definition c05_wit_p : prob := prun 1000 (empty_prob 1000 true) [NewCol (-1) 0 1000 None; AddRow 1 "G" None None [(0%Z, 1)]].
 Definition c05_wit : api :=
   {| a_p := c05_wit_p; a_basis := Some {| ba_c := ["0"%char]; ba_r := ["1"%char] |};
      a_cache := Some {| ca_val := -1; ca_x := [1]; ca_pi := [-1]; ca_rc := [0]; ca_slack := [0] |};
      a_qstatus := 1; a_factorok := true |}.
 
-Theorem C05_delrows_cache_sound_refuted :
+Theorem C05_delrows_nonzero_pi_drops_cache :
   Inv_dims c05_wit /\ Inv_cache 1000 c05_wit /\
   snd (api_edit 1000 c05_wit (DelRows [0%Z])) = ROk [] /\
-  ~ Inv_cache 1000 (api_step 1000 c05_wit (AEdit (DelRows [0%Z]))).
+  a_cache (api_step 1000 c05_wit (AEdit (DelRows [0%Z]))) = None /\
+  Inv_cache 1000 (api_step 1000 c05_wit (AEdit (DelRows [0%Z]))).
 Proof.
-  split; [|split; [|split]].
+  split; [|split; [|split; [|split]]].
   - split.
     + intros b H; inversion H; subst. split; reflexivity.
     + intros c H; inversion H; subst. vm_compute. repeat split; reflexivity.
   - intros c H; inversion H; subst. vm_compute. reflexivity.
   - vm_compute. reflexivity.
-  - intros H.
-    assert (X := H {| ca_val := -1; ca_x := [1]; ca_pi := []; ca_rc := [0]; ca_slack := [] |} eq_refl).
-    vm_compute in X. discriminate.
+  - vm_compute. reflexivity.
+  - intros c H. vm_compute in H. discriminate.
 Qed.
-Print Assumptions C05_delrows_cache_sound_refuted.
+Print Assumptions C05_delrows_nonzero_pi_drops_cache.
 
 (* the hypotheses of the positive theorems are satisfiable: the witness state itself, one solve step *)
 Example C05_example :
